@@ -340,12 +340,12 @@ default:
     - operation: 'channel.return'
     - operation: 'channel.write'
       input: %q
-      redacted: true
+      redacted: %s
     - operation: 'channel.return'
     - operation: 'acquire-priv'
     - operation: 'driver.send-command'
       command: 'terminal length 0'
-`, f.sec.enable)
+`, f.sec.enable, map[string]string{"spelled-True": "True", "spelled-TRUE": "TRUE"}[f.variant]+map[bool]string{true: "true"}[!strings.HasPrefix(f.variant, "spelled-")])
 					var p *platform.Platform
 					var err error
 					popts := append(base(), options.WithAuthSecondary(f.sec.enable))
@@ -442,7 +442,7 @@ func scenarios(tier string) []sched.Scenario {
 	for _, v := range []string{"generic", "generic-two-options", "netconf", "netconf-two-options"} {
 		fvs = append(fvs, fv{"system-key", v})
 	}
-	fvs = append(fvs, fv{"interactive", "generic"}, fv{"interactive", "network"}, fv{"platform-onopen", "redacted-write"}, fv{"platform-onopen", "redacted-write-fails"}, fv{"platform-onopen", "later-step-stalls"}, fv{"platform-onopen", "variant-own-sequence"}, fv{"platform-onopen", "variant-inherits-sequence"})
+	fvs = append(fvs, fv{"interactive", "generic"}, fv{"interactive", "network"}, fv{"platform-onopen", "redacted-write"}, fv{"platform-onopen", "redacted-write-fails"}, fv{"platform-onopen", "later-step-stalls"}, fv{"platform-onopen", "variant-own-sequence"}, fv{"platform-onopen", "variant-inherits-sequence"}, fv{"platform-onopen", "spelled-True"}, fv{"platform-onopen", "spelled-TRUE"})
 	for _, x := range fvs {
 		for _, lvl := range []string{"debug", "info", "critical"} {
 			for _, sec := range secretSets {
@@ -463,7 +463,7 @@ func TestCheck(t *testing.T) {
 	sched.Main(t, sched.Check{
 		ID:          "C11",
 		Level:       "exploration",
-		Rule:        "invariant monitor over every execution of: telnet and ssh in-channel login {accepted, one rejection, three rejections, device silent at the password prompt, write error on the credential write}, privilege escalation, called directly and from the driver's on-open function {asks then grants, grants, refuses, asks then refuses, asks then the stream ends / fails / falls silent right after the secret arrived, asks then the write of the secret itself fails}, interactive send with a hidden secret (generic and network), platform on-open with a redacted write (succeeding, failing on that write, a later step of the sequence timing out, the sequence defined by a platform variant or inherited by one), system transport refusing a passphrase-protected key (generic and NETCONF); x log level {debug, info, critical} x secret shape {plain, format verbs, regex metacharacters} x read preset {whole, 1 byte} (+ every single extra cut/hold at debug level); a capturing logger and a channel-log writer are attached; distinct = distinct (family, variant, level, secret, schedule)",
+		Rule:        "invariant monitor over every execution of: telnet and ssh in-channel login {accepted, one rejection, three rejections, device silent at the password prompt, write error on the credential write}, privilege escalation, called directly and from the driver's on-open function {asks then grants, grants, refuses, asks then refuses, asks then the stream ends / fails / falls silent right after the secret arrived, asks then the write of the secret itself fails}, interactive send with a hidden secret (generic and network), platform on-open with a redacted write (succeeding, failing on that write, a later step of the sequence timing out, the sequence defined by a platform variant or inherited by one, the flag spelled True / TRUE), system transport refusing a passphrase-protected key (generic and NETCONF); x log level {debug, info, critical} x secret shape {plain, format verbs, regex metacharacters} x read preset {whole, 1 byte} (+ every single extra cut/hold at debug level); a capturing logger and a channel-log writer are attached; distinct = distinct (family, variant, level, secret, schedule)",
 		Assumptions: []string{"the device never echoes a secret (precondition of the property)", "non-vacuity is checked: the secret reached the device, the debug log carries 'redacted' and ordinary writes"},
 		Scenarios:   scenarios,
 		Budget:      map[string]time.Duration{"quick": 4 * time.Minute, "thorough": 20 * time.Minute},
